@@ -114,6 +114,7 @@ pub fn shared_stream_spaces(ctx: &Ctx, st: &mut Local, f: Sink) {
         e4_single(ctx, "E4s", lens, &dists, st, f);
     }
     e4_runs(ctx, "E4run", st, f);
+    e4_overreach(ctx, "E4over", st, f);
     e6_chainspace(ctx, "E6chain", st, f);
     let comps: Vec<Comp> = if ctx.quick() {
         let mut v = comp::zlib_grid_quick();
